@@ -69,11 +69,8 @@ Fixpoint regen_with (g : N -> option (str * N)) (fuel : nat) (used : list str) (
       end
   end.
 
-(* the column-side loop (anchor_split, translate_select_item): plain generator, exact comparison *)
-Definition regen (fuel : nat) (prefix : str) (used : list str) (cur : option str) (n : N) : option (str * N) :=
-  regen_with (plain_gen prefix) fuel used cur n.
-
-(* the table-side loop (assign_names, RelVarNameAssigner): generator that skips reserved names; one `verif:namegen`
+(* the loop with the generator that skips reserved names (tables: assign_names, RelVarNameAssigner; columns: anchor_split,
+   translate_select_item with the reserved column names, [] before the repair of F33b); one `verif:namegen`
    event of site assign_names / relvar is  regen_r (S (S (length used))) lower table_ reserved used old n = Some (new, n') *)
 Definition regen_r (fuel : nat) (lower : str -> str) (prefix : str) (reserved used : list str) (cur : option str) (n : N) : option (str * N) :=
   regen_with (gen_table_name lower prefix reserved) fuel used cur n.
@@ -106,21 +103,28 @@ Inductive cdecl :=
   | DSingle (nm : option str)      (* RelationColumn(_, _, Single(nm)) *)
   | DCompute.                      (* Compute(_) *)
 
-(* ... and the name it already has in column_names (`before`).  Returns the function's result and the new counter. *)
-Definition ensure_column_name (prefix : str) (d : cdecl) (before : option str) (n : N) : option str * N :=
+(* ... and the name it already has in column_names (`before`).  Returns the function's result and the new counter.
+   The generator is gen_col_name = gen_table_name over the reserved COLUMN names (repair of F33b); the code without the
+   repair is the instance reserved = [], where gen_table_name is plain NameGenerator::gen (GenIdentDialect.col_names_reserved
+   says which of the two the source is). *)
+Definition ensure_column_name (lower : str -> str) (prefix : str) (reserved : list str) (d : cdecl) (before : option str) (n : N)
+  : option (option str * N) :=
   match d with
-  | DWild => (None, n)
-  | DSingle (Some nm) => (Some (match before with Some b => b | None => nm end), n)
-  | _ => match before with Some b => (Some b, n) | None => (Some (gen_name prefix n), N.succ n) end
+  | DWild => Some (None, n)
+  | DSingle (Some nm) => Some (Some (match before with Some b => b | None => nm end), n)
+  | _ => match before with
+         | Some b => Some (Some b, n)
+         | None => match gen_table_name lower prefix reserved n with Some (x, n') => Some (Some x, n') | None => None end
+         end
   end.
 
 (* anchor_split, one column: `old` is what ensure_column_name returned.  One `verif:namegen` event of site anchor_split is
-   split_step _expr_ used old n = Some (new, n') *)
-Definition split_step (prefix : str) (used : list str) (old : option str) (n : N) : option (option str * N) :=
+   split_step lower _expr_ reserved used old n = Some (new, n') *)
+Definition split_step (lower : str -> str) (prefix : str) (reserved used : list str) (old : option str) (n : N) : option (option str * N) :=
   match old with
   | None => Some (None, n)
   | Some nm =>
-      match regen (S (S (length used))) prefix used (Some nm) n with
+      match regen_r (S (S (length used))) lower prefix reserved used (Some nm) n with
       | Some (x, n') => Some (Some x, n')
       | None => None
       end
@@ -128,25 +132,35 @@ Definition split_step (prefix : str) (used : list str) (old : option str) (n : N
 
 Definition add_used (x : option str) (used : list str) : list str := match x with Some s => s :: used | None => used end.
 
-(* anchor_split over the columns at the split (declaration, name in column_names before the call) *)
-Fixpoint split_names (prefix : str) (cols : list (cdecl * option str)) (used : list str) (n : N) : option (list (option str) * N) :=
+(* anchor_split over the columns at the split (declaration, name in column_names before the call); one `verif:anchor_split`
+   event is  split_names lower _expr_ reserved (combine decls names) [] next_name = Some (new names, next_name after) *)
+Fixpoint split_names (lower : str -> str) (prefix : str) (reserved : list str) (cols : list (cdecl * option str)) (used : list str) (n : N)
+  : option (list (option str) * N) :=
   match cols with
   | [] => Some ([], n)
   | (d, b) :: cs =>
-      let '(old, n0) := ensure_column_name prefix d b n in
-      match split_step prefix used old n0 with
+      match ensure_column_name lower prefix reserved d b n with
       | None => None
-      | Some (new, n1) =>
-          match split_names prefix cs (add_used new used) n1 with
-          | Some (l, n') => Some (new :: l, n')
+      | Some (old, n0) =>
+          match split_step lower prefix reserved used old n0 with
           | None => None
+          | Some (new, n1) =>
+              match split_names lower prefix reserved cs (add_used new used) n1 with
+              | Some (l, n') => Some (new :: l, n')
+              | None => None
+              end
           end
       end
   end.
 
 (* translate_select_item: alias of a column without a name; `used` = column_names.values() *)
-Definition select_item_alias (prefix : str) (used : list str) (n : N) : option (str * N) :=
-  regen (S (S (length used))) prefix used None n.
+Definition select_item_alias (lower : str -> str) (prefix : str) (reserved used : list str) (n : N) : option (str * N) :=
+  regen_r (S (S (length used))) lower prefix reserved used None n.
+
+(* the reserved column names the code works with: the lower-cased names of every column the RQ mentions when the repair is
+   in the source, nothing otherwise *)
+Definition code_col_reserved (repaired : bool) (lower : str -> str) (rq_columns : list str) : list str :=
+  if repaired then reserved_of lower rq_columns else [].
 
 (* is_ascii for the statement that relates Unicode lower-casing to the ASCII case folding of SQLite *)
 Definition ascii_only (s : str) : bool := forallb (fun c => c <? 128) s.
